@@ -154,7 +154,7 @@ func newHTTPEnv(kind string) *httpEnv {
 	e.srv.AddTransport(transport.POST{})
 	e.srv.AddTransport(transport.GET{})
 	if qc {
-		e.srv.SetQueryCache(graphql.MapCache[*ast.QueryDocument]{})
+		e.srv.SetQueryCache(newDocCache(kind))
 	}
 	e.srv.Use(gate{})
 	e.srv.Use(extension.AutomaticPersistedQuery{Cache: &hRecCache{inner: e.inner}})
@@ -205,6 +205,9 @@ func (r req) httpRequest() (*http.Request, error) {
 		if p.Query != "" {
 			v.Set("query", p.Query)
 		}
+		if p.OperationName != "" {
+			v.Set("operationName", p.OperationName)
+		}
 		if p.Extensions != nil {
 			b, err := json.Marshal(p.Extensions)
 			if err != nil {
@@ -217,6 +220,9 @@ func (r req) httpRequest() (*http.Request, error) {
 	m := map[string]any{}
 	if p.Query != "" {
 		m["query"] = p.Query
+	}
+	if p.OperationName != "" {
+		m["operationName"] = p.OperationName
 	}
 	if p.Extensions != nil {
 		m["extensions"] = p.Extensions
@@ -322,9 +328,13 @@ func (rec *reqRec) observed(r req) string {
 		if rec.post != nil {
 			post = *rec.post
 		}
-		x = tid(rec.executed[0].text(post))
+		var docOK bool
+		x, docOK = rec.executed[0].unit(post)
 		if rec.executed[0].raw != post && strings.HasPrefix(class, "run:") {
 			class += "!raw=" + tid(rec.executed[0].raw) // OperationContext.RawQuery is not the text APQ left
+		}
+		if !docOK {
+			class += rec.executed[0].docMark()
 		}
 	} else if len(rec.executed) > 1 {
 		x = "multi"
@@ -434,6 +444,27 @@ func halpha(i int) req {
 
 const nHAlpha = 7
 
+// the operation alphabet over HTTP: text 18 = [A B C] registered / resolved under different operation names
+func hopalpha(i int) req {
+	switch i {
+	case 0:
+		return req{q: 18, ext: 'd', ver: 1, hash: texts[18].sha, shape: "f64", op: "A"}
+	case 1:
+		return req{q: 18, ext: 'd', ver: 1, hash: texts[18].sha, shape: "f64", op: "C"}
+	case 2:
+		return req{q: -1, ext: 'd', ver: 1, hash: texts[18].sha, shape: "f64", op: "A"}
+	case 3:
+		return req{q: -1, ext: 'd', ver: 1, hash: texts[18].sha, shape: "f64", op: "B"}
+	case 4:
+		return req{q: -1, ext: 'd', ver: 1, hash: texts[18].sha, shape: "f64", op: "B", get: true}
+	case 5:
+		return req{q: -1, ext: 'd', ver: 1, hash: texts[18].sha, shape: "f64"}
+	}
+	return req{q: 19, ext: 'd', ver: 1, hash: texts[19].sha, shape: "f64", op: "A"}
+}
+
+var halphaFn = halpha
+
 // markings: every way to make at most one adjacent pair of the history concurrent, in both decode orders
 func markings(h []req, f func([]req)) {
 	f(h)
@@ -453,7 +484,7 @@ func httpExhaustive(w io.Writer, kind string, L int, stride, offset uint64) {
 	for {
 		h := make([]req, L)
 		for i, x := range idx {
-			h[i] = halpha(x)
+			h[i] = halphaFn(x)
 		}
 		markings(h, func(g []req) {
 			if n%stride == offset%stride {
@@ -485,10 +516,15 @@ func httpSafe(r req) bool {
 
 func httpRandom(w io.Writer, r *rng.R, n int) {
 	kinds := []string{"map@http", "lru1@http", "lru2@http", "lru2+q@http", "map+q@http", "lru3@http", "no@http"}
+	opKinds := []string{"map+q@http", "lru2+q@http", "lru3+q1@http", "map+q2@http"}
 	for i := 0; i < n; i++ {
 		kind := kinds[r.Below(len(kinds))]
-		nt := 2 + r.Below(4)
+		pool := prefixPool(2 + r.Below(4))
 		L := 3 + r.Below(12)
+		if r.Below(3) == 0 { // operation-heavy
+			kind = opKinds[r.Below(len(opKinds))]
+			pool = opPool(r)
+		}
 		h := make([]req, L)
 		for j := range h {
 			switch c := r.Below(100); {
@@ -496,7 +532,7 @@ func httpRandom(w io.Writer, r *rng.R, n int) {
 				h[j] = req{q: -1, ext: 'b', shape: faultKinds[r.Below(len(faultKinds))]}
 			default:
 				for {
-					h[j] = randReq(r, nt)
+					h[j] = randReq(r, pool)
 					if httpSafe(h[j]) {
 						break
 					}
